@@ -109,3 +109,18 @@ for _fn, _left in (('be_val', False), ('le_val', True), ('bits_val', False), ('v
 
 def cong_instance(fn, a, alo, b, blo, n):
     return cong_stmt(fn)({'a': a, 'alo': alo, 'b': b, 'blo': blo, 'n': n})
+
+
+# ------------------------------------------------------------------------------------------------ equality is reflexive
+def _beq(a, ao, b, bo, n):
+    return t.app('beq', t.BOOL, a, ao, b, bo, n)
+
+
+Lemma('beq_reflexive', [('a', t.ARR), ('ao', t.INT), ('n', t.INT)], lambda v: _beq(v['a'], v['ao'], v['a'], v['ao'], v['n']), induct=('n', 0),
+      ih_instances=lambda v: [{'a': v['a'], 'ao': v['ao']}], tags=('C01', 'C02', 'C05'),
+      defs=lambda v: [t.eq(_beq(v['a'], v['ao'], v['a'], v['ao'], v['n']),
+                           t.ite(t.le(v['n'], t.ZERO), t.TRUE, t.and_(t.eq(t.select(v['a'], t.add(v['ao'], t.sub(v['n'], t.ONE))), t.select(v['a'], t.add(v['ao'], t.sub(v['n'], t.ONE)))),
+                                                                     _beq(v['a'], v['ao'], v['a'], v['ao'], t.sub(v['n'], t.ONE)))))])
+Lemma('pyeq_reflexive', [('x', t.VAL)], lambda v: t.app('pyeq', t.BOOL, v['x'], v['x']), tags=('C01', 'C02', 'C05'),
+      hints=lambda v: [_beq(t.app('barr', t.ARR, v['x']), t.app('boff', t.INT, v['x']), t.app('barr', t.ARR, v['x']), t.app('boff', t.INT, v['x']), t.app('blen', t.INT, v['x']))],
+      doc='the hint is the instance of beq_reflexive at the bytes payload of x')
